@@ -650,7 +650,8 @@ macro_rules! backend_impl {
                     let (mut errs, mut mag) = (-1i128, 0i128);
                     if dst.valid {
                         let cb = dst.re.iter().zip(dst.im.iter()).map(|(x, y)| x.hypot(*y)).fold(0.0, f64::max);
-                        let lim = (dst.ct.log_budget() as f64 - 1.0).exp2();
+                        // usable range of balanced base-2^b digits: a hair below 2^(log_budget-1) on the positive side
+                        let lim = (dst.ct.log_budget() as f64 - 1.0).exp2() * (1.0 - (-(cx.base2k as f64 - 2.0)).exp2());
                         let noise = 64.0 * cx.n as f64 * (-(dst.ct.log_delta() as f64)).exp2();
                         if !(cb.is_finite() && cb * (1.0 + 2f64.powi(-45)) + noise < lim && cb < 1e30) { dst.valid = false; } else { mag = cb.ceil() as i128 + 1; }
                     }
@@ -863,12 +864,17 @@ macro_rules! gen_impl {
                 let enc_k = if rng.below(8) == 0 { rng.range(1, mk as i64) as i128 } else { mk - rng.below(b as u64) as i128 }.max(1);
                 let room = (enc_k - ld).max(0);
                 let lbp = if rng.below(6) == 0 { rng.below(40) as i128 } else { rng.below(1 + room.min(24) as u64) as i128 };
-                // near the magnitude limit: constant slots of absolute value 2^(log_budget-1) - 2
-                let (kind, mag, lbp) = if rng.below(10) == 0 && room >= 3 && room <= 40 { (2, (1i128 << (room - 1)) - 2, room) } else { (rng.below(2) as i128 * 3, 0, lbp) };
+                // near the magnitude limit: constant slots of absolute value 2^(log_budget-1) (1 - 2^-(base2k-2))
+                // (balanced base-2^b digits decode values in [2^(lb-1) (1 - 2^-b), 2^(lb-1)) as negative: the usable positive range ends there)
+                let (kind, mag, lbp) = if rng.below(10) == 0 && room >= 3 && room <= 40 {
+                    let cut = if room - 1 >= b - 2 { 1i128 << (room - 1 - (b - 2)) } else { 1 };
+                    (2, (1i128 << (room - 1)) - cut.max(2), room)
+                } else { (rng.below(2) as i128 * 3, 0, lbp) };
                 push(mach, prog, st(&[ENCRYPT, r, 0, 0, ld, lbp, enc_k, rng.next() as u32 as i128, kind, mag]));
             };
             for r in 0..3 { fresh(rng, &mut mach, &mut prog, r, &mut push); }
             let mut poisoned: Vec<bool> = vec![false; NREGS];
+            let mut probed: Vec<bool> = vec![false; NREGS];
             for _ in 0..nsteps {
                 let d = rng.below(NREGS as u64) as usize;
                 let mut a = rng.below(NREGS as u64) as usize;
@@ -880,12 +886,31 @@ macro_rules! gen_impl {
                 let (bl, bbud, _bsz) = mach.meta(bb);
                 let dmk = dsz * b;
                 let wild = rng.below(6) == 0;
-                // the register is refreshed when its metadata was left inconsistent by a failed call (unless defects are wanted)
-                if poisoned[d] && !(defects && rng.below(3) == 0) {
-                    let sz = 1 + rng.below(maxsz as u64) as i128;
-                    push(&mut mach, &mut prog, st(&[ALLOC, d as i128, 0, 0, sz]));
-                    poisoned[d] = false;
-                    if rng.below(2) == 0 { fresh(rng, &mut mach, &mut prog, d as i128, &mut push); }
+                // a register whose metadata was left inconsistent (failed call, or the rescale_into class) is quarantined:
+                // in a `defects` program one simple call is made on it (these are the calls the model covers for operands
+                // that violate the invariant), then it is allocated afresh; nothing else ever reads it
+                if let Some(p) = (0..NREGS).find(|r| poisoned[*r]) {
+                    if defects && !probed[p] {
+                        probed[p] = true;
+                        let other = (p + 1) % NREGS;
+                        let s = match rng.below(5) {
+                            0 => st(&[NEG_ASSIGN, p as i128]),
+                            1 => st(&[RESCALE_ASSIGN, p as i128, 0, 0, rng.below(4) as i128]),
+                            2 => st(&[DIVPOW2_ASSIGN, p as i128, 0, 0, rng.below(4) as i128]),
+                            3 => st(&[COMPACT_COPY, other as i128, p as i128]),
+                            _ => st(&[DECRYPT, p as i128, 0, 0, 20, 4]),
+                        };
+                        let status = push(&mut mach, &mut prog, s);
+                        if status == ST_PANIC { break; }
+                        let (l2, b2, s2) = mach.meta(other);
+                        if l2 + b2 > s2 * b { poisoned[other] = true; probed[other] = true; }
+                    } else {
+                        let sz = 1 + rng.below(maxsz as u64) as i128;
+                        push(&mut mach, &mut prog, st(&[ALLOC, p as i128, 0, 0, sz]));
+                        poisoned[p] = false;
+                        probed[p] = false;
+                        if rng.below(2) == 0 { fresh(rng, &mut mach, &mut prog, p as i128, &mut push); }
+                    }
                     continue;
                 }
                 let (d, a, bb) = (d as i128, a as i128, bb as i128);
